@@ -8,3 +8,4 @@ EXPLANATION = (
 UNDECIDED = "`each once` across blocks relies on the writer never storing an entry twice (C02)."
 ASSUMPTIONS = [K.A_BYTES, K.A_PRED, K.A_TABLE, "bigBed entries within a block are start-sorted (guard C13-G6)"]
 OBLIGATIONS = [K.BED_SECTION_W] + K.SPANS + [K.BED_KEEP, K.OVERLAPS, K.QUERY_ARGS, K.BED_BLOCK_R, K.BED_GUARDS] + K.CIR_READER
+OBLIGATIONS = OBLIGATIONS + [K.SEARCH_ORDER, K.CACHE, K.CACHED_SIBS, K.INTERVAL_SIBS]
